@@ -24,6 +24,7 @@ type c12Op struct {
 	Arg  int    `json:"arg,omitempty"`  // type number / value index / cursor index / checkpoint index
 	Arg2 int    `json:"arg2,omitempty"`
 	Str  string `json:"str,omitempty"`
+	Obs  int    `json:"obs"` // bit mask of the observers called after the step: 1 Peek, 2 RawPeek, 4 RawCursor, 8 Cursor
 }
 
 type c12Case struct {
@@ -118,25 +119,38 @@ func c12Pred(op c12Op) func(lexer.Token) bool {
 }
 
 // observe compares every observer with the model.
-func (s *c12State) observe(when string) string {
+func (s *c12State) observe(when string) string { return s.observeMask(when, 15) }
+
+// observeMask calls only the observers selected by mask: observing must not be a precondition of
+// correct behaviour (an implementation that skips elided tokens lazily is only exposed if a step is
+// NOT followed by a Peek).
+func (s *c12State) observeMask(when string, mask int) string {
 	var msg string
 	if p := guard(func() {
 		ne := s.mNextNE(s.raw)
-		if got := *s.pl.Peek(); got != s.toks[ne] {
-			msg = fmt.Sprintf("%s: Peek() = %#v, model %#v (raw cursor %d)", when, got, s.toks[ne], s.raw)
-			return
+		if mask&1 != 0 {
+			if got := *s.pl.Peek(); got != s.toks[ne] {
+				msg = fmt.Sprintf("%s: Peek() = %#v, model %#v (raw cursor %d)", when, got, s.toks[ne], s.raw)
+				return
+			}
 		}
-		if got := *s.pl.RawPeek(); got != s.toks[s.raw] {
-			msg = fmt.Sprintf("%s: RawPeek() = %#v, model %#v", when, got, s.toks[s.raw])
-			return
+		if mask&2 != 0 {
+			if got := *s.pl.RawPeek(); got != s.toks[s.raw] {
+				msg = fmt.Sprintf("%s: RawPeek() = %#v, model %#v", when, got, s.toks[s.raw])
+				return
+			}
 		}
-		if got := int(s.pl.RawCursor()); got != s.raw {
-			msg = fmt.Sprintf("%s: RawCursor() = %d, model %d", when, got, s.raw)
-			return
+		if mask&4 != 0 {
+			if got := int(s.pl.RawCursor()); got != s.raw {
+				msg = fmt.Sprintf("%s: RawCursor() = %d, model %d", when, got, s.raw)
+				return
+			}
 		}
-		if got, want := s.pl.Cursor(), s.mCursor(s.raw); got != want {
-			msg = fmt.Sprintf("%s: Cursor() = %d, model %d non-elided tokens consumed", when, got, want)
-			return
+		if mask&8 != 0 {
+			if got, want := s.pl.Cursor(), s.mCursor(s.raw); got != want {
+				msg = fmt.Sprintf("%s: Cursor() = %d, model %d non-elided tokens consumed", when, got, want)
+				return
+			}
 		}
 	}); p != "" {
 		return when + ": observer " + p
@@ -240,7 +254,7 @@ func (s *c12State) step(i int, op c12Op) string {
 	if msg != "" {
 		return msg
 	}
-	return s.observe("after " + when)
+	return s.observeMask("after "+when, op.Obs)
 }
 
 func runC12Case(c *c12Case) (outcome, *c12State) {
@@ -259,20 +273,22 @@ func runC12Case(c *c12Case) (outcome, *c12State) {
 	return outcome{}, s
 }
 
-const c12Rule = "rapid state machine: token stream of 0-30 tokens over 4 types (+EOF), any elision subset, " +
+const c12Rule = "rapid state machine: token stream of 0-30 tokens over 10 types (positive, negative, 64 apart; +EOF), any elision subset (optionally incl. EOF), " +
 	"operation sequence over Peek/Next/RawPeek/PeekAny/FastForward/Range/MakeCheckpoint/LoadCheckpoint stepped " +
-	"in lockstep with an explicit model (token slice + raw cursor); non-trivial = the sequence contains a " +
+	"in lockstep with an explicit model (token slice + raw cursor), with a drawn subset of observers (possibly none) called after each step; non-trivial = the sequence contains a " +
 	"FastForward that skips an elided token, a checkpoint restore that moves the cursor, and a call at EOF; " +
 	"distinct by SHA-256 of (tokens, elision set, operations)"
 
+var c12Types = []int{1, 2, 3, 4, 65, 130, -2, -3, -66, -67}
+
 func genC12Op(t *rapid.T, name string) c12Op {
-	op := c12Op{Op: name}
+	op := c12Op{Op: name, Obs: rapid.SampledFrom([]int{15, 15, 0, 0, 1, 2, 4, 8, 12, 3}).Draw(t, "obs")}
 	switch name {
 	case "PeekAny":
 		op.Pred = rapid.SampledFrom([]string{"type", "type", "value", "false", "true"}).Draw(t, "pred")
 		switch op.Pred {
 		case "type":
-			op.Arg = rapid.IntRange(1, 4).Draw(t, "ptype")
+			op.Arg = rapid.SampledFrom(c12Types).Draw(t, "ptype")
 		case "value":
 			op.Str = rapid.SampledFrom([]string{"a", "b", " ", "#"}).Draw(t, "pvalue")
 		}
@@ -290,13 +306,16 @@ func TestC12(t *testing.T) {
 		c := &c12Case{}
 		n := rapid.IntRange(0, 30).Draw(t, "ntoks")
 		for i := 0; i < n; i++ {
-			ty := rapid.IntRange(1, 4).Draw(t, "type")
+			ty := rapid.SampledFrom(c12Types).Draw(t, "type")
 			c.Toks = append(c.Toks, c12Tok{Type: ty, Value: rapid.SampledFrom([]string{"a", "b", " ", "#"}).Draw(t, "value")})
 		}
-		for ty := 1; ty <= 4; ty++ {
+		for _, ty := range c12Types {
 			if rapid.IntRange(0, 2).Draw(t, "elide") == 0 {
 				c.Elide = append(c.Elide, ty)
 			}
+		}
+		if rapid.IntRange(0, 7).Draw(t, "elideEOF") == 0 {
+			c.Elide = append(c.Elide, int(lexer.EOF)) // accepted by Upgrade; EOF must still end every scan
 		}
 		s, msg := newC12State(c)
 		if msg != "" {
